@@ -12,8 +12,8 @@ Per-run obligations on the REAL esutil.wcsutil.WCS (scratch build of the tree un
     on the implementation's own image2sky values.
   * exact-rational checks (differential runner, Exec.v verdicts, vm_compute over Q): longitude in
     [0,360), latitude in [-90,90]; sky2image(image2sky(p)) within 1e-6 px of p with root finding
-    (and without it on undistorted chains), within 30 x (rms over the image of fitted-inverse o forward distortion - identity,
-    evaluated by the harness from the coefficients the object holds) + 1e-6 px without root finding; scalar calls = array calls (1e-9 degree on the sky, 1e-6 px,
+    (and without it on undistorted chains), within 30 x (rms residual over the whole image of the documented inverse fit re-done by the harness
+    on the image rectangle) + 1e-6 px without root finding; scalar calls = array calls (1e-9 degree on the sky, 1e-6 px,
     3.6e-6 arcsec/px for the jacobian: numpy's array and scalar power differ in the last bits); every operation
     of a random call history returns bit for bit what a fresh object returns; numpy.linalg.inv
     contract (cdinv . cd = 1 to 1e-9).
@@ -181,6 +181,12 @@ class Forward(Base):
             # the reference pixel, wherever it is
             out.append({"header": h, "pts": [[h["crpix1"], h["crpix2"]]], "distort": True, "arr": False,
                         "family": fam, "crpix": True})
+        # reference point on the RA = 0 seam written as 0.0 or 360.0, axis-aligned CD matrix, pixels exactly on
+        # the meridian through the reference pixel: through the array AND the scalar code
+        for _ in range(ctx.n(8, 60) if round == 0 else 6):
+            h, fam, pts = g.gen_seam_meridian(ctx.rng)
+            for arr in (True, False):
+                out.append({"header": h, "pts": pts, "distort": True, "arr": arr, "family": fam})
         return out
 
     @guarded
@@ -218,6 +224,14 @@ class RoundTrip(Base):
                 ctx.rng.choice(["find", "fit", "nodistort"])
             pts = g.gen_points(ctx.rng, h, ctx.n(10, 16))
             out.append({"header": h, "pts": pts, "mode": mode, "family": fam})
+        # find=False on portrait and landscape images, TPV and SIP inverse fits, positions over the whole image
+        kinds = ["tpv", "sip", "tan-pv", "sip-noinv", "tpv-sparse", "sip-bonly"]
+        for i in range(ctx.n(12, 96) if round == 0 else 12):
+            kind = kinds[i % len(kinds)]
+            nax = g.NAX_NONSQUARE[(i // 2) % len(g.NAX_NONSQUARE)] if i % 2 else ctx.rng.choice([(2048, 4096), (1024, 4096), (300, 512)])
+            h = g.gen_header(ctx.rng, kind, ctx.rng.choice(g.CRVAL_FAMILIES), ctx.rng.choice(["inside", "inside", "outside"]), nax=nax)
+            out.append({"header": h, "pts": g.gen_points(ctx.rng, h, ctx.n(14, 20)), "mode": "fit",
+                        "family": "%s/nonsquare-%dx%d/fit" % (kind, nax[0], nax[1])})
         return out
 
     @guarded
@@ -234,10 +248,11 @@ class RoundTrip(Base):
             pairs.append([x, y, float(xb), float(yb)])
         rms = None
         if mode == "fit" and has_dist(h):
-            # yardstick: how well the fitted inverse polynomial the object now holds inverts the convention's
-            # forward distortion on a grid over the image (computed here, not by the code's inverse chain)
-            d = w.distort
-            rms = g.fit_rms(h, d["name"], [list(map(float, r)) for r in d["ap"]], [list(map(float, r)) for r in d["bp"]])
+            # yardstick "fitted-polynomial accuracy ... over the whole image": the documented fit (normal equations,
+            # one order above the forward polynomial, (2 (order + 2) 5)^2 grid) re-done by the harness on the image
+            # rectangle [1,NAXIS1] x [1,NAXIS2]; its rms residual over the image, in pixels (c10_gen.reference_inverse,
+            # fit_rms = the quantity of theorem C10_fit_roundtrip).  Independent of the coefficients the object holds.
+            rms = g.ref_fit_yardstick(h, w=mk(h))
         return {"pairs": pairs, "rms": rms}
 
     def term(self, c, out):
@@ -263,6 +278,9 @@ class ScalarArray(Base):
             op = ctx.rng.choice(["i2s", "s2i", "s2i", "jac"])
             out.append({"header": h, "pts": g.gen_points(ctx.rng, h, ctx.rng.choice([1, 3, 6]), special=False),
                         "op": op, "distort": ctx.rng.random() < 0.7, "find": ctx.rng.random() < 0.5, "family": fam})
+        for _ in range(ctx.n(6, 40) if round == 0 else 4):
+            h, fam, pts = g.gen_seam_meridian(ctx.rng)
+            out.append({"header": h, "pts": pts, "op": "i2s", "distort": True, "find": False, "family": fam})
         # jacobians whose +-step positions straddle the RA = 0 seam (both branches of wrap_ra_diff, scalar and array code)
         for _ in range(ctx.n(8, 60) if round == 0 else 6):
             h, fam, pts = seam_case(ctx.rng, ctx.rng.choice([1, 3]))
@@ -600,7 +618,7 @@ TRUSTED = [
     "reference direction of its exact binary64 inputs (partial w.r.t. rounding, DESIGN 3.3-R)",
     "NOT modelled: scipy.optimize.fsolve and the least-squares inverse fit (Section variables of the model; history "
     "independence is proved for arbitrary functions in their place); their accuracy is checked on samples only: round trip "
-    "< 1e-6 px with root finding, <= 30 x rms(fitted inverse polynomial o forward distortion - identity over the image, evaluated by the harness) + 1e-6 px without; numpy.linalg.inv is modelled as "
+    "< 1e-6 px with root finding, <= 30 x rms(residual over the whole image of the documented inverse fit, re-done by the harness on the image rectangle [1,NAXIS1] x [1,NAXIS2]) + 1e-6 px without; numpy.linalg.inv is modelled as "
     "the exact inverse and monitored (|cdinv.cd - 1| <= 1e-9)",
     "numpy array layer (broadcasting, masks, in-place ufuncs) is not modelled; checked per run on exact values: scalar calls "
     "= array calls to the statement's accuracies; history independence checked bit for bit against fresh objects",
@@ -613,6 +631,9 @@ def run(ctx, replay=None):
     ctx.rule = ("headers: kinds {tan, tpv (full scamp PV sets), tan-pv (old scamp: -TAN with PV), tpv-sparse (PVi_1 and others "
                 "omitted), tpv-axis2 (PV2 only), sip, sip-noinv (no AP/BP_ORDER), sip-bonly} x CRVAL families {sphere, "
                 "|dec| in [89.9,90), dec = +-90 exactly, RA = 0, RA = 359.999} x CRPIX {inside the image, 3000-20000 px outside}; "
+                "image shapes square, portrait and landscape (256^2 ... 1024x4096, 4096x1024); reference point on the seam written as 0.0 "
+                "or 360.0 with axis-aligned CD and pixels exactly on the meridian (array and scalar calls); find=False round trips on "
+                "non-square images for TPV and SIP fits; "
                 "random CD (rotation, flip, 0.05-2 arcsec/px); positions: corners, centre, reference pixel, pixels next to "
                 "a celestial pole inside the image, uniform.  Every call's outputs are checked on exact rationals in Coq; a "
                 "family-balanced sample of image2sky outputs is certified by interval lemmas against the FITS reference. "
